@@ -159,3 +159,35 @@ func (cf *CasesFile) WriteTo(dir, name string) CorrFile {
 	}
 	return CorrFile{Path: path, Obligations: names, Cases: len(cf.Cases), Inputs: cf.Inputs}
 }
+
+// ReplayInputs returns the inputs recorded in a replay file: `input` is either one input object
+// (failing-input replays) or a list of them (correspondence replays).
+func ReplayInputs(path string) []interface{} {
+	b, err := os.ReadFile(path)
+	if err != nil {
+		panic(err)
+	}
+	var body map[string]interface{}
+	if err := json.Unmarshal(b, &body); err != nil {
+		panic(err)
+	}
+	switch in := body["input"].(type) {
+	case []interface{}:
+		return in
+	case nil:
+		return nil
+	default:
+		return []interface{}{in}
+	}
+}
+
+// Remarshal converts a generic JSON value into a typed one.
+func Remarshal(in interface{}, out interface{}) {
+	b, err := json.Marshal(in)
+	if err != nil {
+		panic(err)
+	}
+	if err := json.Unmarshal(b, out); err != nil {
+		panic(err)
+	}
+}
